@@ -166,7 +166,7 @@ def setup(c):
 
 
 KINDS = ['noise', 'tones', 'ar', 'trend', 'dyn', 'int']
-NWS = [1.5, 2, 2.5, 3, 3.5, 4]
+NWS = [1.5, 2, 2.5, 3, 3.5, 4, 1.8, 2.3, 2.75, 3.3]      # incl. values whose 2*NW is not an integer (default k = round(2 NW))
 
 
 def cases(c):
